@@ -26,7 +26,6 @@ import (
 	"io"
 	"net"
 	"net/http"
-	"net/http/httputil"
 	"net/url"
 	"sync"
 	"syscall"
@@ -36,6 +35,9 @@ import (
 	"github.com/talostrading/sonic/sonicerrors"
 	"github.com/talostrading/sonic/sonicopts"
 )
+
+// Upper bound on the size of the HTTP response header accepted during the opening handshake.
+const maxHandshakeResponseLength = 64 * 1024
 
 type Stream struct {
 	ioc *sonic.IO
@@ -982,24 +984,34 @@ func (s *Stream) upgrade(uri *url.URL, stream sonic.Stream, headers []Header) er
 		return err
 	}
 
+	// The response may arrive in several segments: read until the blank line that ends its header.
 	s.handshakeBuffer = s.handshakeBuffer[:cap(s.handshakeBuffer)]
-	n, err := stream.Read(s.handshakeBuffer)
-	if err != nil {
-		return err
+	n, headerEnd := 0, -1
+	for headerEnd < 0 {
+		if n == len(s.handshakeBuffer) {
+			if n >= maxHandshakeResponseLength {
+				return ErrCannotUpgrade
+			}
+			s.handshakeBuffer = append(s.handshakeBuffer, make([]byte, len(s.handshakeBuffer))...)
+		}
+		nn, err := stream.Read(s.handshakeBuffer[n:])
+		if err != nil {
+			return err
+		}
+		n += nn
+		headerEnd = bytes.Index(s.handshakeBuffer[:n], []byte("\r\n\r\n"))
 	}
+	headerEnd += 4
 	s.handshakeBuffer = s.handshakeBuffer[:n]
-	rd := bytes.NewReader(s.handshakeBuffer)
+	rd := bytes.NewReader(s.handshakeBuffer[:headerEnd])
 	res, err := http.ReadResponse(bufio.NewReader(rd), req)
 	if err != nil {
 		return err
 	}
 
-	rawRes, err := httputil.DumpResponse(res, true)
-	if err != nil {
-		return err
-	}
-
-	resLen := len(rawRes)
+	// Everything after the blank line is frame data. The boundary is taken from the bytes received, not from
+	// a re-serialisation of the parsed response, whose length differs when the server's formatting does.
+	resLen := headerEnd
 	extra := len(s.handshakeBuffer) - resLen
 	if extra > 0 {
 		// we got some frames as well with the handshake so we can put
